@@ -54,6 +54,8 @@ func init() {
 }
 
 func runC23(c *core.Ctx) {
+	c.Rule("SCANLIM", "json: preview and reader accept the same line length")
+	checkScannerLimits(c, "SCANLIM")
 	c.Rule("PQOPT", "parquet files are opened with options the pinned library honours")
 	checkParquetOpenOptions(c, "PQOPT")
 	c.Rule("CSVPARSE", "csv: inference and execution parse cells with the same parsers")
@@ -1400,4 +1402,38 @@ func checkParquetOpenOptions(c *core.Ctx, rule string) {
 		})
 	}
 	c.Decide(bad == "" && n >= 2, rule, key, 0, n, "the options are in a form the pinned library honours", bad)
+}
+
+// checkScannerLimits (SCANLIM): the json source scans the file twice — the first 100 lines for the schema, then all
+// lines for the rows — and both scanners must accept the same line length, or whether a row can be read depends on
+// where in the file it stands (a 2 MB line is fine as row 151 and fatal as row 1 with a hard-coded 1 MiB preview limit).
+func checkScannerLimits(c *core.Ctx, rule string) {
+	p := c.Prog
+	key := "datasources/json inference↔execution/line length limit"
+	limits := map[string]string{}
+	var pos token.Pos
+	for _, name := range []string{"Creator", "(*DatasourceExecuting).Run"} {
+		fn := p.Func("datasources/json", name)
+		if fn == nil {
+			c.Unknown(rule, key, 0, name+" not found")
+			return
+		}
+		c.SawFunc("datasources/json." + name)
+		info := fn.Info()
+		ast.Inspect(fn.Decl.Body, func(n ast.Node) bool {
+			call, ok := n.(*ast.CallExpr)
+			if !ok || len(call.Args) != 2 || p.CalleeName(info, call) != "bufio.(*Scanner).Buffer" {
+				return true
+			}
+			limits[name] = core.ExprStr(call.Args[1])
+			if tv := info.Types[call.Args[1]]; tv.Value != nil {
+				limits[name] = tv.Value.ExactString()
+			}
+			pos = call.Pos()
+			return true
+		})
+	}
+	a, b := limits["Creator"], limits["(*DatasourceExecuting).Run"]
+	c.Decide(a != "" && a == b, rule, key, pos, 2, "the schema preview and the row reader accept the same line length",
+		fmt.Sprintf("the schema preview scans with a line limit of %q and the row reader with %q: a line between the two limits is readable after the previewed rows and fatal (bufio.Scanner: token too long) among them", a, b))
 }
